@@ -40,6 +40,9 @@ MC_CONC_LOG = mc_conc({'TRANSPORT': 'log'}, {'TRANSPORT': 'log', 'LAYOUTS': 'Lay
 MC_CONC_ASBUILT = mc_conc({}, {'ROLLBACK': 'TRUE'}, asbuilt=True, thorough_only=True, timeout=2400)
 MC_CONC_NEG = mc_conc({}, {}, asbuilt=True, expect_violation=True, thorough_only=True)
 
+MC_KEYS_STRICT = mc_conc({'MAXOPS': '2', 'LAYOUTS': 'LayoutSome', 'TRANSPORT': 'log'}, {'MAXOPS': '3', 'LAYOUTS': 'LayoutSome', 'TRANSPORT': 'log'}, cfg='MC_Keys.cfg')
+MC_KEYS_ASBUILT = mc_conc({'MAXOPS': '2', 'TRANSPORT': 'log'}, {'MAXOPS': '2', 'LAYOUTS': 'LayoutSome', 'TRANSPORT': 'log'}, cfg='MC_Keys.cfg', asbuilt=True, thorough_only=True)
+
 PROPS = {
     'C01': seq_prop('c01', 150, 2500, mc=[MC_STORE_STRICT, MC_STORE_ASBUILT, MC_STORE_NEG]),
     'C02': seq_prop('c02', 120, 2000, mc=[MC_ATOMIC], more=[fam('conc', 'c02', 16, 300)]),
@@ -48,6 +51,7 @@ PROPS = {
                     more=[fam('conc', 'c06', 24, 400), fam('conc', 'c06dfs', 1, 16)]),
     'C09': {'level': 'model_checking', 'mc': [MC_CONC_STRICT], 'families': [fam('conc', 'c09', 48, 800)], 'trace': COLUMN_TRACE, 'assumptions': []},
     'C11': seq_prop('c11', 100, 2000, mc=[MC_CONC_STRICT, MC_CONC_ASBUILT], more=[fam('conc', 'c11', 32, 500)]),
+    'C12': seq_prop('c12', 150, 2500, mc=[MC_KEYS_STRICT, MC_KEYS_ASBUILT], more=[fam('conc', 'c12', 24, 400)]),
     'C15': seq_prop('c15', 100, 2000, mc=[MC_CONC_STRICT], more=[fam('conc', 'c15', 32, 500)]),
     'C16': seq_prop('c16', 150, 2500, mc=[MC_STORE_STRICT]),
     'C19': seq_prop('c19', 150, 2500, mc=[MC_STORE_STRICT]),
